@@ -216,7 +216,9 @@ MustFail(s, n) == G.nodes[n].inchoice /\ s.ioc
 (***************************************************************************)
 ElisionInit(s, el, hascreation) ==
   CASE el = "none" ->
-         LET s1 == Open(s) IN SetLocal(SetLocal(s1, "m", Len(s.nodes)), "opened", TRUE)
+         LET s1 == Open(s)
+             s2 == SetLocal(SetLocal(s1, "m", Len(s.nodes)), "opened", TRUE)
+         IN IF hascreation THEN SetLocal(s2, "start", MarkOf(s2)) ELSE s2
     [] el = "cond" ->
          LET s1 == CloseErr(s) IN SetLocal(SetLocal(s1, "start", MarkOf(s1)), "elide", FALSE)
     [] OTHER ->
@@ -430,7 +432,9 @@ StepRule(s) ==
        ELSE Pop(s)
   ELSE
        IF t.pc = 0 THEN
-          LET s1 == IF isstart THEN s ELSE ElisionInit(s, R.el, R.hascreation)
+          LET s1 == IF isstart
+                    THEN (IF R.hascreation THEN LET c == CloseErr(s) IN SetLocal(c, "start", MarkOf(c)) ELSE s)
+                    ELSE ElisionInit(s, R.el, R.hascreation)
           IN PushRx(SetPc(s1, 1), R.body)
        ELSE Pop(IF isstart THEN s ELSE ElisionCheck(s, R.el))
 
